@@ -2,5 +2,307 @@
 import SFModel.Heap
 
 namespace SF
+namespace Heap
 
+/-! ### Prop-level characterisations of the Boolean predicates -/
+
+theorem bufFrozen_iff (h : Heap) (b : Nat) :
+    h.bufFrozen b = true ↔ ∀ y ∈ h.arrs, y.buf = b → y.writeable = false := by
+  simp only [bufFrozen, List.all_eq_true]
+  constructor
+  · intro H y hy hb
+    have := H y hy
+    simp [hb] at this
+    exact this
+  · intro H y hy
+    by_cases hb : y.buf = b
+    · simp [H y hy hb]
+    · simp [hb]
+
+theorem isolated_iff (h : Heap) (a : Nat) :
+    h.isolated a = true ↔
+      ∃ x, h.arrs[a]? = some x ∧ x.writeable = false ∧
+        ∀ y ∈ h.arrs, y.buf = x.buf → y.writeable = false := by
+  unfold isolated
+  cases hx : h.arrs[a]? with
+  | none => simp
+  | some x => simp [bufFrozen_iff]
+
+theorem inv_iff (h : Heap) :
+    h.inv = true ↔ ∀ c ∈ h.conts, ∀ a ∈ c, h.isolated a = true := by
+  simp [inv, List.all_eq_true]
+
+theorem wf_iff (h : Heap) :
+    h.wf = true ↔ ∀ y ∈ h.arrs, y.buf < h.bufs.length := by
+  simp [wf, List.all_eq_true]
+
+/-! ### Isolation is preserved by every event (only `wf` is needed) -/
+
+theorem isolated_step (h : Heap) (e : Ev) (hw : h.wf = true) (a : Nat)
+    (hiso : h.isolated a = true) : (h.step e).isolated a = true := by
+  rw [isolated_iff] at hiso ⊢
+  rw [wf_iff] at hw
+  obtain ⟨x, hx, hxw, hal⟩ := hiso
+  have hlt : a < h.arrs.length := by
+    have := (List.getElem?_eq_some_iff.1 hx).1; exact this
+  cases e with
+  | alloc vals =>
+    refine ⟨x, ?_, hxw, ?_⟩
+    · simp [step, List.getElem?_append_left hlt, hx]
+    · intro y hy hb
+      simp [step] at hy
+      rcases hy with hy | hy
+      · exact hal y hy hb
+      · have := hw x (List.mem_of_getElem? hx)
+        subst hy; simp at hb; omega
+  | view b =>
+    simp only [step]
+    cases hb : h.arrs[b]? with
+    | none => exact ⟨x, hx, hxw, hal⟩
+    | some z =>
+      refine ⟨x, ?_, hxw, ?_⟩
+      · simp [List.getElem?_append_left hlt, hx]
+      · intro y hy hyb
+        simp at hy
+        rcases hy with hy | hy
+        · exact hal y hy hyb
+        · subst hy; simp at hyb ⊢
+          exact hal z (List.mem_of_getElem? hb) hyb
+  | copy b =>
+    simp only [step]
+    cases hb : h.arrs[b]? with
+    | none => exact ⟨x, hx, hxw, hal⟩
+    | some z =>
+      refine ⟨x, ?_, hxw, ?_⟩
+      · simp [List.getElem?_append_left hlt, hx]
+      · intro y hy hyb
+        simp at hy
+        rcases hy with hy | hy
+        · exact hal y hy hyb
+        · have := hw x (List.mem_of_getElem? hx)
+          subst hy; simp at hyb; omega
+  | freeze b =>
+    simp only [step]
+    cases hb : h.arrs[b]? with
+    | none => exact ⟨x, hx, hxw, hal⟩
+    | some z =>
+      have hal' : ∀ y ∈ h.arrs.set b ⟨z.buf, false⟩, y.buf = x.buf → y.writeable = false := by
+        intro y hy hyb
+        rcases List.mem_or_eq_of_mem_set hy with hy | hy
+        · exact hal y hy hyb
+        · subst hy; rfl
+      by_cases hab : b = a
+      · subst hab
+        rw [hx] at hb; cases hb
+        exact ⟨⟨x.buf, false⟩, by simp [hlt], rfl, hal'⟩
+      · exact ⟨x, by simp [List.getElem?_set_ne hab, hx], hxw, hal'⟩
+  | filter b =>
+    simp only [step]
+    cases hb : h.arrs[b]? with
+    | none => exact ⟨x, hx, hxw, hal⟩
+    | some z =>
+      simp only
+      split
+      · refine ⟨x, ?_, hxw, ?_⟩
+        · simp [List.getElem?_append_left hlt, hx]
+        · intro y hy hyb
+          simp at hy
+          rcases hy with hy | hy
+          · exact hal y hy hyb
+          · subst hy; rfl
+      · exact ⟨x, hx, hxw, hal⟩
+  | construct as => exact ⟨x, hx, hxw, hal⟩
+  | write b i v =>
+    simp only [step]
+    cases hb : h.arrs[b]? with
+    | none => exact ⟨x, hx, hxw, hal⟩
+    | some z => exact ⟨x, hx, hxw, hal⟩
+
+/-! ### Well-formedness, containers and the invariant along a step -/
+
+theorem wf_step (h : Heap) (e : Ev) (hw : h.wf = true) : (h.step e).wf = true := by
+  rw [wf_iff] at hw ⊢
+  cases e with
+  | alloc vals =>
+    intro y hy
+    simp [step] at hy ⊢
+    rcases hy with hy | hy
+    · have := hw y hy; omega
+    · subst hy; simp
+  | view b =>
+    simp only [step]
+    cases hb : h.arrs[b]? with
+    | none => exact hw
+    | some z =>
+      intro y hy
+      simp at hy ⊢
+      rcases hy with hy | hy
+      · exact hw y hy
+      · subst hy; exact hw z (List.mem_of_getElem? hb)
+  | copy b =>
+    simp only [step]
+    cases hb : h.arrs[b]? with
+    | none => exact hw
+    | some z =>
+      intro y hy
+      simp at hy ⊢
+      rcases hy with hy | hy
+      · have := hw y hy; omega
+      · subst hy; simp
+  | freeze b =>
+    simp only [step]
+    cases hb : h.arrs[b]? with
+    | none => exact hw
+    | some z =>
+      intro y hy
+      rcases List.mem_or_eq_of_mem_set hy with hy | hy
+      · exact hw y hy
+      · subst hy; exact hw z (List.mem_of_getElem? hb)
+  | filter b =>
+    simp only [step]
+    cases hb : h.arrs[b]? with
+    | none => exact hw
+    | some z =>
+      simp only
+      split
+      · intro y hy
+        simp at hy ⊢
+        rcases hy with hy | hy
+        · have := hw y hy; omega
+        · subst hy; simp
+      · exact hw
+  | construct as => exact hw
+  | write b i v =>
+    simp only [step]
+    cases hb : h.arrs[b]? with
+    | none => exact hw
+    | some z =>
+      intro y hy
+      simp at hy ⊢
+      exact hw y hy
+
+/-- containers are only ever appended -/
+theorem conts_step (h : Heap) (e : Ev) :
+    (h.step e).conts = h.conts ∨ ∃ as, e = .construct as ∧ (h.step e).conts = h.conts ++ [as] := by
+  cases e with
+  | construct as => exact Or.inr ⟨as, rfl, rfl⟩
+  | alloc vals => exact Or.inl rfl
+  | view b => left; simp only [step]; split <;> rfl
+  | copy b => left; simp only [step]; split <;> rfl
+  | freeze b => left; simp only [step]; split <;> rfl
+  | filter b =>
+    left; simp only [step]; split
+    · split <;> rfl
+    · rfl
+  | write b i v => left; simp only [step]; split <;> rfl
+
+theorem conts_length_step (h : Heap) (e : Ev) : h.conts.length ≤ (h.step e).conts.length := by
+  rcases conts_step h e with H | ⟨as, _, H⟩ <;> simp [H]
+
+theorem conts_getD_step (h : Heap) (e : Ev) (c : Nat) (hc : c < h.conts.length) :
+    (h.step e).conts.getD c [] = h.conts.getD c [] := by
+  rcases conts_step h e with H | ⟨as, _, H⟩
+  · rw [H]
+  · rw [H]; simp [List.getD, List.getElem?_append_left hc]
+
+theorem inv_step (h : Heap) (e : Ev) (hw : h.wf = true) (hi : h.inv = true)
+    (hl : h.legal e = true) : (h.step e).inv = true := by
+  rw [inv_iff] at hi ⊢
+  intro c hc a ha
+  apply isolated_step h e hw
+  rcases conts_step h e with H | ⟨as, he, H⟩
+  · rw [H] at hc; exact hi c hc a ha
+  · rw [H] at hc
+    simp at hc
+    rcases hc with hc | hc
+    · exact hi c hc a ha
+    · subst hc; subst he
+      simp [legal] at hl
+      exact hl a ha
+
+/-! ### Reads through isolated arrays, snapshots -/
+
+/-- the content read through array `a` -/
+def read (h : Heap) (a : Nat) : List Int :=
+  match h.arrs[a]? with
+  | some x => h.bufs.getD x.buf []
+  | none => []
+
+theorem snapshot_eq_map_read (h : Heap) (c : Nat) :
+    h.snapshot c = (h.conts.getD c []).map h.read := rfl
+
+/-- what is read through an isolated array is unchanged by every legal event -/
+theorem read_step (h : Heap) (e : Ev) (hw : h.wf = true) (hl : h.legal e = true) (a : Nat)
+    (hiso : h.isolated a = true) : (h.step e).read a = h.read a := by
+  rw [isolated_iff] at hiso
+  rw [wf_iff] at hw
+  obtain ⟨x, hx, hxw, hal⟩ := hiso
+  have hlt : a < h.arrs.length := (List.getElem?_eq_some_iff.1 hx).1
+  have hxb : x.buf < h.bufs.length := hw x (List.mem_of_getElem? hx)
+  cases e with
+  | alloc vals =>
+    simp [read, step, List.getElem?_append_left hlt, hx, List.getElem?_append_left hxb]
+  | view b =>
+    simp only [step]
+    cases hb : h.arrs[b]? with
+    | none => rfl
+    | some z => simp [read, List.getElem?_append_left hlt, hx]
+  | copy b =>
+    simp only [step]
+    cases hb : h.arrs[b]? with
+    | none => rfl
+    | some z =>
+      simp [read, List.getElem?_append_left hlt, hx, List.getElem?_append_left hxb]
+  | freeze b =>
+    simp only [step]
+    cases hb : h.arrs[b]? with
+    | none => rfl
+    | some z =>
+      by_cases hab : b = a
+      · subst hab
+        rw [hx] at hb; cases hb
+        obtain ⟨_, hget⟩ := List.getElem?_eq_some_iff.1 hx
+        simp [read, hlt, hget]
+      · simp [read, List.getElem?_set_ne hab, hx]
+  | filter b =>
+    simp only [step]
+    cases hb : h.arrs[b]? with
+    | none => rfl
+    | some z =>
+      simp only
+      split
+      · simp [read, List.getElem?_append_left hlt, hx, List.getElem?_append_left hxb]
+      · rfl
+  | construct as => rfl
+  | write b i v =>
+    simp only [step]
+    cases hb : h.arrs[b]? with
+    | none => rfl
+    | some z =>
+      have hzw : z.writeable = true := by simpa [legal, hb] using hl
+      have hne : z.buf ≠ x.buf := by
+        intro heq
+        have := hal z (List.mem_of_getElem? hb) heq
+        rw [hzw] at this; cases this
+      simp [read, hx, List.getElem?_set_ne hne]
+
+theorem snapshot_step (h : Heap) (e : Ev) (hw : h.wf = true) (hi : h.inv = true)
+    (hl : h.legal e = true) (c : Nat) (hc : c < h.conts.length) :
+    (h.step e).snapshot c = h.snapshot c := by
+  rw [snapshot_eq_map_read, snapshot_eq_map_read, conts_getD_step h e c hc]
+  apply List.map_congr_left
+  intro a ha
+  apply read_step h e hw hl
+  rw [inv_iff] at hi
+  refine hi _ ?_ a ha
+  simp [List.getD, List.getElem?_eq_getElem hc]
+
+/-! ### Histories -/
+
+theorem run_nil (h : Heap) : h.run [] = h := rfl
+
+theorem run_cons (h : Heap) (e : Ev) (es : List Ev) :
+    h.run (e :: es) = (if h.legal e then h.step e else h).run es := rfl
+
+end Heap
 end SF
